@@ -91,12 +91,14 @@ class Runner:
                     if getattr(h, '__self__', None) is self.p:
                         del d[k]
 
-    def fresh_preconditioner(self):
+    def fresh_preconditioner(self, perturb_rng=None):
         from kfac.preconditioner import KFACPreconditioner
+        from kverif import kharness as kh
         self.drop_hooks()
         with warnings.catch_warnings():
             warnings.simplefilter('ignore')
-            self.p = KFACPreconditioner(self.model, **self.kw)
+            # the fresh object may be constructed with other scalar hyper-parameters than the saved run had
+            self.p = KFACPreconditioner(self.model, **(kh.perturbed_kwargs(self.kw, perturb_rng) if perturb_rng is not None else self.kw))
         self.sched = self.make_sched()
 
 
@@ -124,7 +126,7 @@ def run_single(rng, res, idx):
     import torch
     from kverif import kharness as kh, refmodel as rm
 
-    cfg = kh.make_config(rng, callables=True, dtypes=('float64', 'float64', 'float32'), inv_dtypes=('float32', 'float64'), kl=('const', 'big', 'callable'), max_acc=2)
+    cfg = kh.make_config(rng, callables=True, dtypes=('float64', 'float64', 'float32'), inv_dtypes=('float32', 'float64'), kl=('const', 'big', 'callable', 'none'), max_acc=2)
     cfg['batch'] = rng.randint(1, 5)
     T = rng.randint(4, 8)
     sched_spec = {k: rng.choice([0.2, -0.1, 0.5]) for k, key in (('damping', 'damping'), ('kl_clip', 'kl'), ('lr', 'lr')) if cfg[key][0] == 'const' and rng.random() < 0.35}
@@ -171,7 +173,10 @@ def run_single(rng, res, idx):
         sd = copy.deepcopy(run.p.state_dict())
         want = copy.deepcopy(sd)
         st_ref = run.ref.save()
-        run.fresh_preconditioner()
+        perturbed = rng.random() < 0.5
+        run.fresh_preconditioner(perturb_rng=rng if perturbed else None)
+        if perturbed:
+            res.count('loads_into_differently_configured_preconditioner')
         compute = True
         next_is_refresh = (c % run.ref.val('I') == 0)
         if variant == 'no_inverses' and next_is_refresh and c > 0:
